@@ -1,4 +1,4 @@
-(* A fragment of Go's regexp (RE2 syntax, leftmost-first semantics), byte level.
+(* A fragment of Go's regexp (RE2 syntax), byte level.
    - [re_parse] : parser for the fragment; anything outside it is [PUnsup] (the case is then
      counted, not compared), definite syntax errors are [PErr] (regexp.Compile fails).
    - [re_m]     : backtracking matcher in CPS, anchored at the start of the input, trying
@@ -80,12 +80,14 @@ Section Match.
     end.
 End Match.
 
-(* Match [(rule)suffix] at the start of [s]: returns (capture, rest after the suffix). *)
-Definition re_exec (r : re) (suffix s : bytes) : option (bytes * bytes) :=
-  re_m (S (length s)) r s
-       (fun rest => if has_prefix rest suffix
-                    then Some (firstn (length s - length rest) s, skipn (length suffix) rest)
-                    else None).
+(* Does the rule accept exactly [v]?  The backtracking search tries every way of matching, so
+   for a fixed end of input it decides language membership (leftmost-first vs. longest does
+   not matter); the router compiles ^(?:rule)$ and asks regexp.MatchString. *)
+Definition re_full (r : re) (v : bytes) : bool :=
+  match re_m (S (length v)) r v (fun rest => match rest with [] => Some tt | _ => None end) with
+  | Some _ => true
+  | None => false
+  end.
 
 (* ---------------------------------------------------------------- parser *)
 Inductive pres (T : Type) := POk (x : T) | PErr | PUnsup.
